@@ -1490,6 +1490,23 @@ def msg_flags_decode(ctx, rep, rule):
         if und:
             rep.inconclusive(rule, "SnmpV3Message::try_from|msgFlags", "a flag field does not fold to a value for a given octet", body.loc())
             continue
+        # msgFlags is OCTET STRING (SIZE(1)): a successful parse crosses a test that its length is one
+        gl = []
+        for g in flow.guards(body, prov):
+            ea = flow.eq_atom(g)
+            if ea and any(x == ("const", 1) for x in ea[:2]) and any(x[0] == "call" and (x[1] or "").split("::")[-1] == "len" for x in ea[:2]):
+                gl.append(ea[2])
+        # slice patterns (`let [flags] = ..`) compare the length metadata instead of calling len()
+        for g in flow.guards(body, prov):
+            ea = flow.eq_atom(g)
+            if ea and any(x == ("const", 1) for x in ea[:2]) and any(x[0] == "un" and x[1] == "PtrMetadata" for x in ea[:2]):
+                gl.append(ea[2])
+        oks_ = flow.blocks_assigning_return(body, lambda rv: rv["k"] == "agg" and rv.get("vname") == "Ok")
+        if oks_:
+            # variant-aware: the length test may sit in a helper whose `?` was inlined (its Err continuation must not flow into Ok)
+            rep.check(rule, "SnmpV3Message::try_from|msgFlags is one octet", bool(gl) and not (cells.variant_reach(body, cut=frozenset(gl)) & set(oks_)),
+                      "len(msgFlags) == 1 before Ok", "a msgFlags field of another size than one octet is accepted (its first octet is used)",
+                      body.loc(), obligation=True)
         rep.check(rule, "SnmpV3Message::try_from|msgFlags", not bad, "flag_auth/flag_priv/flag_report = bits 0/1/2 of the flags octet, for all 256 octets",
                   "decoded flags do not mirror the encoder's msgFlags table: %s" %
                   ", ".join("%s differs from bit %d for octet 0x%02x" % (f, bits[f].bit_length() - 1, v) for f, v in sorted(bad.items())), body.loc(), obligation=True)
@@ -1586,6 +1603,40 @@ def literal_int_tlv(ctx, rep, rule):
                           "values %d..=%d are written as the single content octet of an INTEGER: 128..=255 go on the wire as -128..=-1" % (lo, hi),
                           body.loc(site[2].get("line")), obligation=True)
     rep.info(rule, "literal one-octet INTEGER TLVs", str(n))
+
+
+def usm_fields_raw(ctx, rep, rule):
+    """UsmParameters::try_from hands the four OCTET STRING fields on exactly as decoded (zero copy): msgUserName,
+    msgAuthoritativeEngineID, the authentication and privacy parameters are compared with session state by unwrap_pdu,
+    so a field that was cut, padded or re-sliced on the way compares equal for messages that are different."""
+    facts = ctx.facts
+    body = None
+    for b in facts.body_list:
+        if b.path.startswith("<snmp::msg::v3::usm::UsmParameters<") and b.path.endswith("::try_from"):
+            body = b
+    if body is None:
+        rep.missing(rule, "UsmParameters::try_from")
+        return
+    prov = flow.Prov(body)
+    n = 0
+    for blk in body.live_blocks():
+        for st_ in blk.stmts:
+            if st_["k"] == "assign" and st_["rv"]["k"] == "agg":
+                t = prov.rvalue(st_["rv"])
+                if not (t[0] == "agg" and (t[1] or "").endswith("UsmParameters") and len(t) > 3):
+                    continue
+                for f, ft in t[3]:
+                    if f not in ("user_name", "engine_id", "auth_params", "privacy_params"):
+                        continue
+                    n += 1
+                    cut = flow.mentions(ft, lambda x: x[0] == "call" and (x[1] or "").split("::")[-1] in
+                                        ("index", "get", "split_at", "split_first", "split_last", "trim_ascii", "strip_prefix", "strip_suffix", "first_chunk", "last_chunk",
+                                         "min", "truncate", "to_vec", "to_owned"))
+                    rep.check(rule, "UsmParameters::try_from|%s as decoded" % f, not cut and flow.mentions(ft, lambda x: x[0] == "call" and (x[1] or "").endswith("::from_ber")),
+                              "the decoded OCTET STRING, untouched", "%s is rewritten between the decoder and the message (%s): the session compares a "
+                              "field the agent did not send" % (f, flow.fmt(ft)[:80]), body.loc(st_.get("line")), obligation=True)
+    if n < 4:
+        rep.inconclusive(rule, "UsmParameters::try_from|fields", "only %d of the four OCTET STRING fields found in the aggregate" % n, body.loc())
 
 
 def out_of_buffer_owner(ctx, rep, rule):
